@@ -155,6 +155,7 @@ def abf_expect(case):
             nq += 1
             if exch:
                 last[w] = nt
+                tokens.append("a,%d" % w)
                 pending.append((k, w, smp))
                 if len(pending) == n:
                     for v in range(n):
@@ -198,7 +199,7 @@ def parse_model_abf(out):
         if t[0] == "Q":
             c = t[3][4:].split(";")
             f = t[4][4:].split(";")
-            res.append({"w": int(t[1]), "last_step": int(t[2]),
+            res.append({"w": int(t[1]), "last_step": int(t[2]), "ss": (t[5] == "ss=1") if len(t) > 5 else None,
                         "cnt": [int(x) for x in c[0].split(",")], "lcnt": [int(x) for x in c[1].split(",")],
                         "ocnt": [int(x) for x in c[2].split(",")],
                         "sum": [float.fromhex(x) for x in f[0].split(",")], "lsum": [float.fromhex(x) for x in f[1].split(",")],
@@ -294,6 +295,11 @@ def check_abf(run, exe, model, cases, scratch):
             d = same_abf(impl, m, exact)
             if d is not None:
                 run.mismatch("abf", {"case": c, "event": k, "field": d}, {x: impl[x] for x in ("cnt", "sum", "lcnt", "lsum", "ocnt", "osum", "last_step")}, m)
+                tie_ok = False
+                continue
+            if m.get("ss") is False:
+                run.mismatch("abf:small-step", {"case": c, "event": k}, "schedule executed by the walkers",
+                             "SharedModel.sstep refuses an action of this schedule or ends in different grids")
                 tie_ok = False
                 continue
             if k in dmap:
